@@ -636,7 +636,10 @@ class Scheduler:
                     # State is None if this is not the main thread
                     return JobState.ERROR
 
-                job.state = state
+                # An aborted start already set the state to WAITING (a dependency
+                # may have made the job READY again since)
+                if state != JobState.WAITING:
+                    job.state = state
 
         for listener in self.listeners:
             try:
@@ -703,6 +706,7 @@ class Scheduler:
                                     dependency,
                                     job,
                                 )
+                                job.state = JobState.WAITING
                                 dependency.check()
                                 return JobState.WAITING
 
